@@ -6,5 +6,5 @@ From GV Require Import Pattern.Common Pattern.Build Pattern.Machine Pattern.Spec
 Extraction Language OCaml.
 Extraction "model.ml" Z.add N.add Nat.add Pos.add
   Build.build Machine.api Top.spec_find_list Top.backref_to_position Top.wf_pattern Terminate.cost Z.leb
-  Drivers.find_im Drivers.match_im Drivers.gmatch_im Drivers.gsub_im
+  Drivers.gmatch_pattern Drivers.find_im Drivers.match_im Drivers.gmatch_im Drivers.gsub_im
   Drivers.find_s Drivers.match_s Drivers.gmatch_s Drivers.gsub_s.
